@@ -41,13 +41,15 @@ def run(tier, replay=None):
             ck.coq_ok, ck.coq_error = True, ""
         return None
 
-    mism = {"inherit": None, "shape": None, "exchange": None}
+    mism = {"inherit": None, "shape": None, "strip": None, "exchange": None}
     if ck.coq_ok:
         hdr = "From Security Require Import Model Run.\nOpen Scope string_scope.\n"
         mism["inherit"] = evaluate("inherit", hdr, "inherit_case", "inherit_mismatches")
         hdr2 = hdr + "\n".join(lines("defs.v")) + "\n"
         if ck.coq_ok:
             mism["shape"] = evaluate("shape", hdr2, "nat * list requirement * list stmt", "shape_mismatches", shards=2)
+        if ck.coq_ok:
+            mism["strip"] = evaluate("strip", hdr2, "nat * locs * list requirement * list cattr", "strip_mismatches", shards=2)
         if ck.coq_ok:
             mism["exchange"] = evaluate("exchange", hdr2, "exchange_case", "exchange_mismatches")
     nm = sum(len(v or []) for v in mism.values())
@@ -64,14 +66,17 @@ def run(tier, replay=None):
         elif mism["shape"]:
             first = {"endpoint_shape_line": lines("cases_shape.txt")[mism["shape"][0]][:3000],
                      "parse_error": res.get("extra", {}).get("last_shape_error")}
+        elif mism["strip"]:
+            first = {"decoder_strip_line": lines("cases_strip.txt")[mism["strip"][0]][:3000],
+                     "parse_error": res.get("extra", {}).get("last_strip_error")}
         elif mism["inherit"]:
             first = {"placement_line": lines("cases_inherit.txt")[mism["inherit"][0]][:3000]}
         ck.unproved("correspondence Security model vs goa broke: %d placement(s) (effective_reqs/data_reqs vs expr + service data), "
-                    "%d endpoint shape(s) (gen_endpoint vs generated endpoints.go), %d exchange(s) (run vs recorded callbacks); "
-                    "the property's own laws held on every case explored"
-                    % (len(mism["inherit"] or []), len(mism["shape"] or []), len(mism["exchange"] or [])),
+                    "%d endpoint shape(s) (gen_endpoint vs generated endpoints.go), %d request decoder(s) (strip_fields vs generated encode_decode.go), "
+                    "%d exchange(s) (run vs recorded callbacks); the property's own laws held on every case explored"
+                    % (len(mism["inherit"] or []), len(mism["shape"] or []), len(mism["strip"] or []), len(mism["exchange"] or [])),
                     {"broken": "correspondence", "first_disagreeing_case": first,
-                     "mismatching_placements": (mism["inherit"] or [])[:50], "mismatching_shapes": (mism["shape"] or [])[:50],
+                     "mismatching_placements": (mism["inherit"] or [])[:50], "mismatching_shapes": (mism["shape"] or [])[:50], "mismatching_decoders": (mism["strip"] or [])[:50],
                      "mismatching_exchanges": (mism["exchange"] or [])[:50]})
     extra = {k: v for k, v in res.get("extra", {}).items() if k != "designs"}
     cov = {"evaluations": res["evaluations"], "distinct_nontrivial": res["distinct_nontrivial"], "rule": res["rule"],
@@ -82,10 +87,10 @@ def run(tier, replay=None):
            "exhaustive_parts": "all 2^k callback verdict vectors per secured method; all 6^3 x 2 placements of the tier-A variants",
            "harness_notes": extra}
     return ck.finish(cov, assumptions=[
-        "model Security/Model.v is hand-written from service_endpoint_method.go.tpl, expr/method.go Finalize, service_data.go (SchemesData.Append), request_encoder/decoder.go.tpl; tied on every run by (a) parsing each generated endpoint function back into the model's statements and comparing with gen_endpoint, (b) evaluating effective_reqs/data_reqs and run inside Coq on every placement / exchange the real code ran",
+        "model Security/Model.v is hand-written from service_endpoint_method.go.tpl, expr/method.go Finalize, service_data.go (SchemesData.Append), request_encoder/decoder.go.tpl; tied on every run by (a) parsing each generated endpoint function back into the model's statements and comparing with gen_endpoint, (a') reading the prefix-stripping section of each generated request decoder and comparing with strip_fields, (b) evaluating effective_reqs/data_reqs and run inside Coq on every placement / exchange the real code ran",
         "callbacks are Section variables (any function of kind, scheme struct, credentials, context); chain_is_or_of_ands / chain_call_order additionally assume the verdict does not depend on the context",
         "chain theorems assume every requirement lists at least one scheme (empty_requirement_refuted shows why); designs in the explored envelope satisfy it",
-        "one scheme per kind per service (two API-key schemes in one service do not compile: C01 territory); credentials always supplied; one credential per HTTP location",
+        "one scheme per kind per service (two API-key schemes in one service do not compile: C01 territory); header-carried credentials may share one header (the client is then given one value for the group, or only one member of an optional group); Basic never shares Authorization with another credential",
         "base64 of Basic credentials, URL query escaping and JSON body encoding are exercised end to end but modelled as identity; net/http header trimming is modelled as trimming of spaces and tabs",
         "gRPC transport of credentials is not exercised (protoc absent)"],
         trusted_base=["harness/cmd/c06 (design construction, go/ast reader of endpoints.go, observation, Coq term printing)",
